@@ -5,7 +5,8 @@
    config_default.yaml and __init__.py on every run: the theorems that mention them are re-checked
    against the current source. confuse itself is validated against the model by the harness. *)
 From Coq Require Import String List.
-From CMinx Require Import Base.Str Model.Path Model.Config Gen.ConfigData Proofs.ConfigFacts.
+From CMinx Require Import Base.Str Model.Path Model.Config Gen.ConfigData Proofs.ConfigFacts
+     Model.Walk Base.PyMainSem Gen.PyMainSource Proofs.MainSourceMatch.
 Import ListNotations.
 
 (* the value in effect is the one from the highest-priority source that sets the option *)
@@ -162,3 +163,82 @@ Theorem C16_output_dir_resolution :
     = COk (CStr (expected_output_dir cwd rc p src)).
 Proof. exact output_dir_resolution. Qed.
 Print Assumptions C16_output_dir_resolution.
+
+(* pymain2coq: the control flow of main() as regenerated from src/cminx/__init__.py on every run
+   (argument parsing, stacking of the sources, template validation, the exclude-filter loop, the
+   loop over the inputs) equals the specification model_main, for every environment, document
+   function and argument vector. *)
+Theorem C16_main_matches_source :
+  forall env document toks, py_run (main env document toks) = model_main env document toks.
+Proof. exact main_matches_source. Qed.
+Print Assumptions C16_main_matches_source.
+
+Theorem C16_wrong_exclude_type_nothing_documented : forall env document toks p stack src v,
+  parse_args cli_table toks = Some p ->
+  consulted env p = Some stack ->
+  In src stack -> assoc excl_key (src_vals src) = Some v -> excl_value_ok v = false ->
+  py_run (main env document toks)
+  = Raised (match settings_of (env_cwd env) stack template with
+            | None => ExcConfig
+            | Some _ => config_type_error
+            end) [].
+Proof. exact wrong_exclude_type_nothing_documented. Qed.
+Print Assumptions C16_wrong_exclude_type_nothing_documented.
+
+Theorem C16_wrong_exclude_type_document_not_called : forall env document document' toks p stack src v,
+  parse_args cli_table toks = Some p ->
+  consulted env p = Some stack ->
+  In src stack -> assoc excl_key (src_vals src) = Some v -> excl_value_ok v = false ->
+  py_run (main env document toks) = py_run (main env document' toks)
+  /\ acts_of (py_run (main env document toks)) = [].
+Proof. exact wrong_exclude_type_document_not_called. Qed.
+Print Assumptions C16_wrong_exclude_type_document_not_called.
+
+Theorem C16_main_exceptions : forall env document toks e acts,
+  py_run (main env document toks) = Raised e acts ->
+  acts = [] /\ In e [ExcArgparseExit; ExcConfigRead; ExcConfig; config_type_error].
+Proof. exact main_exceptions. Qed.
+Print Assumptions C16_main_exceptions.
+
+Theorem C16_accepted_object_options : forall stack st,
+  assoc excl_key (accepted_object stack st) = Some (CStrs (strs_of (expected_union excl_key stack)))
+  /\ (forall k, str_eqb k excl_key = false -> assoc k (accepted_object stack st) = assoc k st).
+Proof. exact accepted_object_options. Qed.
+Print Assumptions C16_accepted_object_options.
+
+Theorem C16_file_between_args_and_user : forall env p f,
+  main_stack env p (Some f)
+  = [args_source cli_table p; f; env_user env app_name; env_defaults env app_name]
+  /\ main_stack env p None
+     = [args_source cli_table p; env_user env app_name; env_defaults env app_name].
+Proof. exact file_between_args_and_user. Qed.
+Print Assumptions C16_file_between_args_and_user.
+
+Theorem C16_main_stack_follows_stacking_order : forall env p file,
+  main_stack env p file = stack_by_order env p file.
+Proof. exact main_stack_follows_stacking_order. Qed.
+Print Assumptions C16_main_stack_follows_stacking_order.
+
+Theorem C16_file_source_priority : forall env p f key ty v rc,
+  let stack := main_stack env p (Some f) in
+  (assoc key (src_vals (args_source cli_table p)) = Some v ->
+   effective (env_cwd env) rc stack key ty
+   = convert (env_cwd env) rc ty (Some (v, args_source cli_table p)))
+  /\ (unset key (args_source cli_table p) -> assoc key (src_vals f) = Some v ->
+      effective (env_cwd env) rc stack key ty = convert (env_cwd env) rc ty (Some (v, f)))
+  /\ (unset key (args_source cli_table p) -> unset key f ->
+      assoc key (src_vals (env_user env app_name)) = Some v ->
+      effective (env_cwd env) rc stack key ty
+      = convert (env_cwd env) rc ty (Some (v, env_user env app_name))).
+Proof. exact file_source_priority. Qed.
+Print Assumptions C16_file_source_priority.
+
+Theorem C16_settings_file_absolute : forall env document toks p f,
+  parse_args cli_table toks = Some p ->
+  assoc (s"settings") (p_stored p) = Some f ->
+  match env_load env (abspath (env_cwd env) f) with
+  | None => py_run (main env document toks) = Raised ExcConfigRead []
+  | Some src => py_run (main env document toks) = model_configured env document p (Some src)
+  end.
+Proof. exact settings_file_absolute. Qed.
+Print Assumptions C16_settings_file_absolute.
